@@ -88,6 +88,9 @@ pub struct Shared {
     pub t0: Option<tokio::time::Instant>,
     /// chooses the answer for the n-th push attempt (data choice made by the scenario)
     pub push_menu: Vec<PushAnswer>,
+    /// instrumented locks currently held (creation site, exclusive) and the nesting edges seen: (held, acquired)
+    pub locks_held: Vec<(String, bool)>,
+    pub lock_edges: std::collections::BTreeSet<(String, bool, String, bool)>,
 }
 
 impl Shared {
@@ -109,6 +112,8 @@ impl Shared {
             push_log: vec![],
             t0: None,
             push_menu: vec![PushAnswer::Status(200)],
+            locks_held: vec![],
+            lock_edges: Default::default(),
         }
     }
 
@@ -308,6 +313,20 @@ impl Hooks for Ctl {
             "topic" if s.caps.0 > 0 => s.caps.0,
             "subscription" if s.caps.1 > 0 => s.caps.1,
             _ => default,
+        }
+    }
+
+    fn lock_event(&self, lock: &'static std::panic::Location<'static>, exclusive: bool, acquire: bool) {
+        let name = format!("{}:{}", lock.file().rsplit('/').next().unwrap_or(""), lock.line());
+        let mut s = self.0.lock().unwrap();
+        if acquire {
+            let held = s.locks_held.clone();
+            for (h, hx) in held {
+                s.lock_edges.insert((h, hx, name.clone(), exclusive));
+            }
+            s.locks_held.push((name, exclusive));
+        } else if let Some(p) = s.locks_held.iter().rposition(|(n, x)| *n == name && *x == exclusive) {
+            s.locks_held.remove(p);
         }
     }
 
